@@ -3,10 +3,12 @@ mod alpha;
 mod c02;
 mod c03;
 mod c05;
+mod c09;
 mod c10;
 mod c11;
 mod c12;
 mod c13;
+mod c14;
 mod common;
 mod selftest;
 
@@ -39,6 +41,73 @@ fn main() {
         "C02" => explorer(prop, &tier, replay, c02::specs(&tier), &c02::C02),
         "C03" => explorer(prop, &tier, replay, c03::specs(&tier, prop), &c03::C03),
         "C05" => explorer(prop, &tier, replay, c05::specs(&tier), &c05::C05),
+        "C09" => {
+            let ctr = std::sync::Arc::new(c09::Counters::default());
+            let ck = c09::C09 { ctr: ctr.clone() };
+            match replay {
+                Some(p) => common::replay_explorer(prop, &p, c09::specs(&tier), &ck),
+                None => common::run_explorer_ext(
+                    prop,
+                    &tier,
+                    c09::specs(&tier),
+                    &ck,
+                    "exhaustive single-fault enumeration: every device call of the last operation of every explored history is failed in turn on the real crate",
+                    vec!["a fault is a single failing device call; calls issued from destructors are exempt (drop_depth hook)".into()],
+                    "fault_enumeration",
+                    &|rep: &mut harness::report::Report| {
+                        use std::sync::atomic::Ordering;
+                        for (sig, msg, cfg) in c09::format_faults(&ctr) {
+                            rep.add(common::violation("C09", &sig, &msg, &cfg), serde_json::json!({"check": "C09", "format": cfg}));
+                        }
+                        let outcomes = ctr.outcomes.lock().unwrap().clone();
+                        let o = rep.coverage.as_object_mut().unwrap();
+                        o.insert("evaluations".into(), ctr.fault_points.load(Ordering::Relaxed).into());
+                        o.insert("distinct_nontrivial".into(), outcomes.iter().filter(|(k, _)| !k.ends_with("not-reached")).count().into());
+                        o.insert("rule".into(), "for every explored (history, last operation): fault-free run gives N device calls; then N re-executions each failing call k=1..N with a unique error id; non-trivial/distinct = distinct (operation kind, device call kind, outcome) triples in which the fault actually fired".into());
+                        o.insert("fault_points_fired".into(), ctr.fired.load(Ordering::Relaxed).into());
+                        o.insert("fault_points_fired_in_destructor".into(), ctr.fired_in_drop.load(Ordering::Relaxed).into());
+                        o.insert("fault_points_not_reached".into(), ctr.not_fired.load(Ordering::Relaxed).into());
+                        o.insert("operations_with_strided_positions".into(), ctr.strided_ops.load(Ordering::Relaxed).into());
+                        o.insert("fault_outcomes".into(), serde_json::to_value(outcomes).unwrap());
+                        let mut samples = ctr.samples.lock().unwrap().clone();
+                        if samples.is_empty() {
+                            samples.push(serde_json::json!("no fault-free sample recorded"));
+                        }
+                        o.insert("samples".into(), samples.into());
+                    },
+                ),
+            }
+        }
+        "C14" => {
+            let ctr = std::sync::Arc::new(c14::Counters::default());
+            let ck = c14::C14 { ctr: ctr.clone(), subsets: common::is_thorough(&tier) };
+            match replay {
+                Some(p) => common::replay_explorer(prop, &p, c14::specs(&tier), &ck),
+                None => common::run_explorer_ext(
+                    prop,
+                    &tier,
+                    c14::specs(&tier),
+                    &ck,
+                    "exhaustive crash-point enumeration over the device write log of every explored history: every prefix, every flush-epoch loss (thorough: bounded subsets of unflushed writes), each crash image remounted and independently decoded",
+                    vec!["whole-call write granularity (no torn sectors); the device honours flush as a barrier".into()],
+                    "fault_enumeration",
+                    &|rep: &mut harness::report::Report| {
+                        use std::sync::atomic::Ordering;
+                        let classes = ctr.classes.lock().unwrap().clone();
+                        let o = rep.coverage.as_object_mut().unwrap();
+                        o.insert("evaluations".into(), ctr.crash_images.load(Ordering::Relaxed).into());
+                        o.insert("distinct_nontrivial".into(), ctr.durable_nodes.load(Ordering::Relaxed).into());
+                        o.insert("rule".into(), "for every explored history containing a durability point (successful flush/drop of f, f not modified afterwards): crash images = every prefix of the last operation's device writes + loss of everything after the last device flush before each cut (+ subsets in the thorough tier); distinct_nontrivial = number of distinct explored histories with a durability point (each contributes >= 1 crash image)".into());
+                        o.insert("crash_image_classes".into(), serde_json::to_value(classes).unwrap());
+                        let mut samples = ctr.samples.lock().unwrap().clone();
+                        if samples.is_empty() {
+                            samples.push(serde_json::json!("no sample recorded"));
+                        }
+                        o.insert("samples".into(), samples.into());
+                    },
+                ),
+            }
+        }
         "C10" => {
             let specs = c10::specs(&tier);
             let cfgs: Vec<_> = specs.iter().map(|s| s.cfg.clone()).collect();
